@@ -70,8 +70,11 @@ Inductive schema :=
                                                          sits behind a pointer; [key] is the effective inner key: the
                                                          explicit tag key of the struct field holding a by-value array,
                                                          else the registered field key, else "data" *)
-| SBytesO (code : N) (key : string).                  (* []byte whose registered type settings carry an object code:
-                                                         object form as well; [key] as for SByteArrO *)
+| SBytesO (code : N) (key : string) (named : bool).   (* []byte whose registered type settings carry an object code:
+                                                         object form as well; [key] as for SByteArrO. [named]: the
+                                                         element type is a named byte type (`type B uint8; []B`): not
+                                                         assignable to []byte, so besides the object form (c016509) the
+                                                         decoder takes a list of numbers instead of a bare hex string *)
 
 Inductive value :=
 | VBool (b : bool) | VInt (z : Z) | VStr (s : string)
@@ -285,7 +288,7 @@ Fixpoint zero_of (s : schema) : value :=
   | SMap _ _ => VMap []
   | SByteArrO true _ _ _ => VNil
   | SByteArrO false n _ _ => VStr (fit n EmptyString)
-  | SBytesO _ _ => VStr EmptyString
+  | SBytesO _ _ _ => VStr EmptyString
   end.
 
 Section FieldsZero.
@@ -317,7 +320,7 @@ Fixpoint is_empty (s : schema) (v : value) {struct s} : bool :=
   | SMap _ _ => match v with VMap [] => true | _ => false end
   | SByteArrO true _ _ _ => is_nil v
   | SByteArrO false n _ _ => match v with VStr x => String.eqb x (fit n EmptyString) | _ => false end
-  | SBytesO _ _ => match v with VStr x => String.eqb x EmptyString | _ => false end
+  | SBytesO _ _ _ => match v with VStr x => String.eqb x EmptyString | _ => false end
   end.
 
 (* field types on which the model value determines emptiness exactly *)
@@ -468,10 +471,21 @@ Fixpoint jencode (s : schema) (v : value) {struct s} : res json :=
         | _ => Err EType
         end in
       if ptr then match v with VNil => Err ENil | VPtr x => body x | _ => Err EType end else body v
-  | SBytesO code key =>
+  | SBytesO code key _ =>
       match v with
       | VStr b => Ok (JObj [(key_type, JNum (Z.of_N code)); (key, JStr (encode_hex b))])
       | _ => Err EType
+      end
+  end.
+
+(* a slice of a named byte type read element-wise (mapDecodeSlice generic path, elements of kind uint8) *)
+Fixpoint dec_byte_list (fx : bool) (l : list json) : res string :=
+  match l with
+  | [] => Ok EmptyString
+  | j :: r =>
+      match j with
+      | JNum z | JFrac z => let* t := dec_byte_list fx r in Ok (String (ascii_of_N (Z.to_N (conv U8 z))) t)
+      | _ => shape_err fx
       end
   end.
 
@@ -533,7 +547,8 @@ Fixpoint jdecode (fx : bool) (s : schema) (j : json) {struct s} : res value :=
       end
   | SByteArrO ptr n code key =>
       (* after b4a46ea / 74faee1 the decoder mirrors the encoder: bare hex string without an object type, object form
-         with one (behind a pointer: only that form; by value also the bare string). The type code is not checked.
+         with one (behind a pointer: only that form, type code not checked; by value also the bare string, and the
+         "type" entry is verified like that of a struct since 221b25a).
          Before ([fx = false]): *[n]byte needed registered type settings and the object form; a by-value array had
          to be a string (unchecked assertion). *)
       let hex (x : string) := let* b := decode_hex x in Ok (VStr (fit n b)) in
@@ -549,18 +564,26 @@ Fixpoint jdecode (fx : bool) (s : schema) (j : json) {struct s} : res value :=
       else
         match j with
         | JStr x => hex x
-        | JObj o => match code with Some _ => if fx then fromobj o else Panic | None => shape_err fx end
+        | JObj o => match code with
+                    | Some _ => if fx then match check_code code o with Some e => Err e | None => fromobj o end else Panic
+                    | None => shape_err fx
+                    end
         | _ => shape_err fx
         end
-  | SBytesO code key =>                                (* mapDecodeSlice after c9f8064: bare hex string or the object form *)
+  | SBytesO code key named =>                          (* mapDecodeSlice after c9f8064 / 221b25a / c016509 *)
+      let objform (o : list (string * json)) :=
+        match check_code (Some code) o with
+        | Some e => Err e
+        | None => match jlookup key o with
+                  | Some (JStr x) => let* b := decode_hex x in Ok (VStr b)
+                  | _ => Err EShape
+                  end
+        end in
+      let elems := let* l := seq_view fx j in let* b := dec_byte_list fx l in Ok (VStr b) in
       match j with
-      | JStr x => let* b := decode_hex x in Ok (VStr b)
-      | JObj o => if fx then match jlookup key o with
-                             | Some (JStr x) => let* b := decode_hex x in Ok (VStr b)
-                             | _ => Err EShape
-                             end
-                  else Panic
-      | _ => shape_err fx
+      | JObj o => if fx then objform o else if named then elems else Panic
+      | JStr x => if named then elems else let* b := decode_hex x in Ok (VStr b)
+      | _ => if named then elems else shape_err fx
       end
   end.
 
@@ -627,7 +650,7 @@ Definition alt_code (s : schema) : option N :=
   match s with
   | SStruct _ (Some c) _ => Some c
   | SByteArrO _ _ (Some c) _ => Some c
-  | SBytesO c _ => Some c
+  | SBytesO c _ _ => Some c
   | _ => None
   end.
 
@@ -656,7 +679,7 @@ Fixpoint wf_schema (s : schema) : bool :=
       && code_nodup (map fst alts)
   | SByteArrO _ _ code key =>
       match code with Some c => (c <? 4294967296)%N && negb (String.eqb key key_type) | None => true end
-  | SBytesO c key => (c <? 4294967296)%N && negb (String.eqb key key_type)
+  | SBytesO c key _ => (c <? 4294967296)%N && negb (String.eqb key key_type)
   | _ => true
   end.
 
@@ -712,7 +735,7 @@ Fixpoint has_type (s : schema) (v : value) {struct s} : bool :=
   | SByteArrO ptr n _ _ =>
       let body (x : value) := match x with VStr b => Nat.eqb (String.length b) n | _ => false end in
       if ptr then match v with VPtr x => body x | _ => false end else body v
-  | SBytesO _ _ => match v with VStr _ => true | _ => false end
+  | SBytesO _ _ _ => match v with VStr _ => true | _ => false end
   end.
 
 (* ---------- decidable equalities for the correspondence ---------- *)
